@@ -3,6 +3,7 @@ pub uninterp spec fn ls_spec<T, C>(items: Seq<T>, limit: usize, cmp: C) -> Seq<T
 // the comparator as a relation ("x is not after y"); which relation a comparator value stands for is stated per comparator where it
 // is defined (the lifted closure's contract for the tags CmpRecords / CmpCounts, the Kani-checked lexicographic order for compare_hits)
 pub uninterp spec fn ls_le<T, C>(cmp: C, x: T, y: T) -> bool;
+#[verifier::opaque]
 pub open spec fn ls_ok<T, C>(cmp: C) -> bool {
     (forall|x: T, y: T| #[trigger] ls_le(cmp, x, y) || ls_le(cmp, y, x))
     && (forall|x: T, y: T, z: T| #[trigger] ls_le(cmp, x, y) && #[trigger] ls_le(cmp, y, z) ==> ls_le(cmp, x, z))
